@@ -733,11 +733,11 @@ func c06BFS(c *vk.Ctx, tag string, ch *c06Chain, roots []int, depth int) {
 		c.Parallel(len(reps), func(l *vk.Local, t int) {
 			for i := t * chunk; i < (t+1)*chunk && i < len(vers); i++ {
 				if k, msg := c06SameT(vers[i].v, vers[i].m, false); k != "" {
-					tr := c06Trace(vers, vers[i].parent)
+					tr := ""
 					if vers[i].parent < 0 {
 						tr = c06Trace(vers, int32(i))
 					} else {
-						tr += "." + vers[i].op.String()
+						tr = c06Trace(vers, vers[i].parent) + "." + vers[i].op.String()
 					}
 					reps[t].add("earlier-version-changed", fmt.Sprintf("the version obtained as %s was validated as %s when it was created, but after BFS level %d it reads %s: %s", tr, c06ShowModel(vers[i].m), level, c06Show(vers[i].v), msg))
 					return
